@@ -12,7 +12,7 @@ M = [
  ("c06_no_unlock_columns", "C06", "sqlittle.go", "func (db *DB) Columns(table string) ([]string, error) {\n\tif err := db.db.RLock(); err != nil {\n\t\treturn nil, err\n\t}\n\tdefer db.db.RUnlock()\n", "func (db *DB) Columns(table string) ([]string, error) {\n\tif err := db.db.RLock(); err != nil {\n\t\treturn nil, err\n\t}\n"),
  ("c06_lock_one_byte", "C06", "db/pager_unix.go", "\t\tStart:  sqliteSharedFirst,\n\t\tLen:    sqliteSharedSize,", "\t\tStart:  sqliteSharedFirst,\n\t\tLen:    1,"),
  ("c07_skip_pending", "C07", "db/pager_unix.go", "\tif err := f.lock(pending); err != nil {\n\t\treturn err\n\t}\n", "\tf.lock(pending)\n"),
- ("c07_reserved_false", "C09", "db/pager_unix.go", "\treturn lock.Type != unix.F_UNLCK, err", "\treturn false, err"),
+ ("c07_reserved_false", "C07", "db/pager_unix.go", "\treturn lock.Type != unix.F_UNLCK, err", "\treturn false, err"),
  ("c08_not_dirty", "C08", "db/database.go", "func (db *Database) RLock() error {\n\tdb.dirty = true\n", "func (db *Database) RLock() error {\n"),
  ("c08_keep_btree_cache", "C08", "db/database.go", "\t\tdb.btreeCache.clear()\n", "\t\t_ = db.btreeCache\n"),
  ("c08_keep_object_cache", "C08", "db/database.go", "\t\tdb.objectCache = nil\n", "\t\t_ = db.objectCache\n"),
